@@ -12,7 +12,7 @@ def functions(model):
         yield None, fn, mod
 
 
-def attr_stores(model, attr):
+def attr_stores(model, attr, only_foreign=None):
     """[(qualname, value node, lineno, module)] for every assignment `<expr>.attr = value` / augmented"""
     out = []
     for cname, fn, mod in functions(model):
@@ -28,6 +28,8 @@ def attr_stores(model, attr):
             for t, val in targets:
                 for tt in ([t] if not isinstance(t, (ast.Tuple, ast.List)) else t.elts):
                     if isinstance(tt, ast.Attribute) and tt.attr == attr:
+                        if only_foreign and isinstance(tt.value, ast.Name) and tt.value.id == 'self' and cname not in only_foreign:
+                            continue        # the class's own field of the same name
                         out.append((q, val, n.lineno, mod, isinstance(n, ast.AugAssign)))
     return out
 
